@@ -75,7 +75,8 @@ impl ParseState {
             self.current_table.span = Some((existing.start)..(value.end));
         }
         let table = &mut self.current_table;
-        let table = Self::descend_path(table, &path, true)?;
+        let value_end = value.span().map(|span| span.end);
+        let table = Self::descend_path(table, &path, true, value_end)?;
 
         // "Likewise, using dotted keys to redefine tables already defined in [table] form is not allowed"
         let mixed_table_types = table.is_dotted() == path.is_empty();
@@ -114,7 +115,7 @@ impl ParseState {
 
         // Look up the table on start to ensure the duplicate_key error points to the right line
         let root = &mut self.root;
-        let parent_table = Self::descend_path(root, &path[..path.len() - 1], false)?;
+        let parent_table = Self::descend_path(root, &path[..path.len() - 1], false, None)?;
         let key = &path[path.len() - 1];
         let entry = parent_table
             .entry_format(key)
@@ -148,7 +149,7 @@ impl ParseState {
         // 1. Look up the table on start to ensure the duplicate_key error points to the right line
         // 2. Ensure any child tables from an implicit table are preserved
         let root = &mut self.root;
-        let parent_table = Self::descend_path(root, &path[..path.len() - 1], false)?;
+        let parent_table = Self::descend_path(root, &path[..path.len() - 1], false, None)?;
         let key = &path[path.len() - 1];
         if let Some(entry) = parent_table.remove(key.get()) {
             match entry {
@@ -181,7 +182,7 @@ impl ParseState {
             assert!(root.is_empty());
             std::mem::swap(&mut table, root);
         } else if self.current_is_array {
-            let parent_table = Self::descend_path(root, &path[..path.len() - 1], false)?;
+            let parent_table = Self::descend_path(root, &path[..path.len() - 1], false, None)?;
             let key = &path[path.len() - 1];
 
             let entry = parent_table
@@ -201,7 +202,7 @@ impl ParseState {
             };
             array.span = span;
         } else {
-            let parent_table = Self::descend_path(root, &path[..path.len() - 1], false)?;
+            let parent_table = Self::descend_path(root, &path[..path.len() - 1], false, None)?;
             let key = &path[path.len() - 1];
 
             let entry = parent_table.entry_format(key);
@@ -229,6 +230,7 @@ impl ParseState {
         mut table: &'t mut Table,
         path: &[Key],
         dotted: bool,
+        value_end: Option<usize>,
     ) -> Result<&'t mut Table, CustomError> {
         for (i, key) in path.iter().enumerate() {
             let entry = table.entry_format(key).or_insert_with(|| {
@@ -268,6 +270,16 @@ impl ParseState {
                             key: key.get().into(),
                             table: None,
                         });
+                    }
+                    if sweet_child_of_mine.is_dotted() {
+                        // A table made of dotted keys spans from its first key to its last value
+                        if let (Some(key_span), Some(end)) = (key.span(), value_end) {
+                            let span = match sweet_child_of_mine.span.take() {
+                                Some(span) => span.start.min(key_span.start)..span.end.max(end),
+                                None => key_span.start..end,
+                            };
+                            sweet_child_of_mine.span = Some(span);
+                        }
                     }
                     table = sweet_child_of_mine;
                 }
